@@ -8,7 +8,11 @@ Groups
   stdlib   stdlib RTL components with several parameterisations
   example  ChecksumRTL, ProcRTL, ProcXcel
   collide  designs built so that different hardware competes for one name (classes, parameters,
-           bitstructs, identifiers) plus the matching controls that must NOT be flagged
+           bitstructs, identifiers) plus the matching controls that must NOT be flagged.
+           The design id is part of the violation keys: designs that exhibit one root cause share an
+           id prefix of their own (samename_, pareq_, paraddr_, id_flat_, kw_, parstr_ ...), the
+           controls (cls_, par_, arg_, hash_, bs_, ctl_ ...) never share it, so that a known-finding
+           entry for the root cause cannot hide a control that starts to fail.
 """
 import os
 import re
@@ -85,7 +89,7 @@ def _collide(thorough):
         D.append((i, files))
 
     # ---- classes sharing __name__ -----------------------------------------------------------
-    add("cls_factory_diff_body", FACTORY.format(PARAMS="") + _two("mk( 1 )()", "mk( 2 )()"))
+    add("samename_factory_diff_body", FACTORY.format(PARAMS="") + _two("mk( 1 )()", "mk( 2 )()"))
     add("cls_factory_same_body", FACTORY.format(PARAMS="") + _two("mk( 1 )()", "mk( 1 )()"))       # control
     add("cls_factory_diff_default", _D('''
         def mk( k ):
@@ -99,9 +103,9 @@ def _collide(thorough):
                 s.out @= s.in_ + K
           return Inner
         ''') + _two("mk( 1 )()", "mk( 2 )()"))                                                       # control
-    add("cls_factory_same_params_diff_body", FACTORY.format(PARAMS=", x=3") +
+    add("samename_factory_same_params", FACTORY.format(PARAMS=", x=3") +
         _two("mk( 1 )( 3 )", "mk( 2 )( x=3 )"))
-    add("cls_factory_diff_ports", _D('''
+    add("samename_factory_diff_ports", _D('''
         def mk( w ):
           class Inner( Component ):
             def construct( s ):
@@ -114,10 +118,10 @@ def _collide(thorough):
                 s.aux @= 0
           return Inner
         ''') + _two("mk( 4 )()", "mk( 5 )()"))
-    add("cls_two_files", _D('''
-        import cls_two_files_m1 as m1, cls_two_files_m2 as m2
+    add("samename_two_files", _D('''
+        import samename_two_files_m1 as m1, samename_two_files_m2 as m2
         ''') + _two("m1.Stage()", "m2.Stage()"),
-        cls_two_files_m1=_D('''
+        samename_two_files_m1=_D('''
         class Stage( Component ):
           def construct( s ):
             s.in_ = InPort( 8 )
@@ -126,7 +130,7 @@ def _collide(thorough):
             def up():
               s.out @= s.in_ + 1
         '''),
-        cls_two_files_m2=_D('''
+        samename_two_files_m2=_D('''
         class Stage( Component ):
           def construct( s ):
             s.in_ = InPort( 8 )
@@ -159,7 +163,7 @@ def _collide(thorough):
             def up():
               s.out @= s.in_ + 1
         '''))                                                                                        # control
-    add("cls_nested_inner", _D('''
+    add("samename_nested_inner", _D('''
         class OuterA( Component ):
           class Inner( Component ):
             def construct( s ):
@@ -190,7 +194,7 @@ def _collide(thorough):
             s.inner.in_ //= s.in_
             s.inner.out //= s.out
         ''') + _two("OuterA()", "OuterB()"))
-    add("cls_deep_hierarchy", _D('''
+    add("samename_deep_hierarchy", _D('''
         def leaf( k ):
           class Leaf( Component ):
             def construct( s ):
@@ -219,8 +223,32 @@ def _collide(thorough):
             s.mid[1].in_ //= s.mid[0].out
             s.mid[1].out //= s.out
         ''') + _two("Upper( 1 )", "Upper( 5 )"))
-    add("cls_parent_child_same_name", _D('''
-        import cls_parent_child_same_name_impl as impl
+    add("arr_elem_params", _D('''
+        class Mid( Component ):
+          def construct( s, k ):
+            s.in_ = InPort( 8 )
+            s.out = OutPort( 8 )
+            K = k
+            @update
+            def up():
+              s.out @= s.in_ ^ K
+
+        class Top( Component ):
+          def construct( s ):
+            s.in_ = InPort( 8 )
+            s.out = OutPort( 8 )
+            s.mid = [ [ Mid( 4 * i + j ) for j in range( 2 ) ] for i in range( 2 ) ]
+            s.mid[0][0].in_ //= s.in_
+            s.mid[0][1].in_ //= s.mid[0][0].out
+            s.mid[1][0].in_ //= s.mid[0][1].out
+            s.mid[1][1].in_ //= s.mid[1][0].out
+            s.mid[1][1].out //= s.out
+
+        def build():
+          return Top()
+        '''))                 # component array whose elements differ in their parameters (control once fixed)
+    add("samename_parent_child", _D('''
+        import samename_parent_child_impl as impl
 
         class Wrap( Component ):
           def construct( s ):
@@ -233,7 +261,7 @@ def _collide(thorough):
         def build():
           return Wrap()
         '''),
-        cls_parent_child_same_name_impl=_D('''
+        samename_parent_child_impl=_D('''
         class Wrap( Component ):
           def construct( s ):
             s.in_ = InPort( 8 )
@@ -242,7 +270,7 @@ def _collide(thorough):
             def up():
               s.out @= s.in_ + 1
         '''))
-    add("cls_stdlib_mixed_queues", _D('''
+    add("samename_stdlib_queues", _D('''
         from pymtl3.stdlib.queues import queues as q_enq
         from pymtl3.stdlib.stream import queues as q_stream
 
@@ -288,10 +316,10 @@ def _collide(thorough):
 
     # ---- parameters whose printed form is ambiguous ------------------------------------------
     tk = "return 2 if isinstance( x, str ) else 3 if isinstance( x, bool ) else 4 if isinstance( x, int ) else 5"
-    add("par_int_vs_str", _child(tk) + _two("Child( 1 )", "Child( '1' )"))
-    add("par_bool_vs_str", _child(tk) + _two("Child( True )", "Child( 'True' )"))
-    add("par_none_vs_str", _child(tk) + _two("Child( None )", "Child( 'None' )"))
-    add("par_bits_vs_int", _child("return x.nbits if isinstance( x, Bits ) else 9") +
+    add("pareq_int_vs_str", _child(tk) + _two("Child( 1 )", "Child( '1' )"))
+    add("pareq_bool_vs_str", _child(tk) + _two("Child( True )", "Child( 'True' )"))
+    add("pareq_none_vs_str", _child(tk) + _two("Child( None )", "Child( 'None' )"))
+    add("pareq_bits_vs_int", _child("return x.nbits if isinstance( x, Bits ) else 9") +
         _two("Child( Bits1( 1 ) )", "Child( 1 )"))
     add("par_int_vs_bool", _child(tk) + _two("Child( 1 )", "Child( True )"))                       # control
     add("par_list_vs_tuple", _child("return len( x ) + ( 1 if isinstance( x, list ) else 7 )") +
@@ -322,6 +350,16 @@ def _collide(thorough):
             def up():
               s.out @= s.in_ + K
         ''') + _two("Child( 3, 4 )", "Child( 4, 3 )"))
+    add("arg_kwarg_order_vs_swapped", _D('''
+        class Child( Component ):
+          def construct( s, p=1, q=2 ):
+            s.in_ = InPort( 8 )
+            s.out = OutPort( 8 )
+            K = p * 16 + q
+            @update
+            def up():
+              s.out @= s.in_ + K
+        ''') + _two("Child( q=3, p=4 )", "Child( 3, 4 )"))                                        # control
     add("arg_set_param", _child() + TWO.format(A="Child()", B="Child()").replace(
         "def build():\n  return Top()",
         "def build():\n  top = Top()\n  top.set_param( 'top.a.construct', x=5 )\n  return top"))
@@ -380,10 +418,10 @@ def _collide(thorough):
           x: Bits4
           y: Bits4
         ''') + _child("return int( x.y )") + _two("Child( Pt( 1, 2 ) )", "Child( Pt( 1, 3 ) )"))
-    add("parstr_function", _D('''
+    add("paraddr_function", _D('''
         def f1( v ): return v + 1
         ''') + _child("return x( 1 )") + _two("Child( f1 )", "Child( f1 )"))
-    add("parstr_object", _D('''
+    add("paraddr_object", _D('''
         class Cfg:
           def __init__( s, k ): s.k = k
         CFG = Cfg( 3 )
@@ -392,7 +430,7 @@ def _collide(thorough):
         _two("Child( { 'alpha', 'beta', 'gamma', 'delta' } )", "Child( { 'alpha' } )"))
     add("parstr_frozenset_int", _child("return len( x )") +
         _two("Child( frozenset( [ 1, 2, 3 ] ) )", "Child( frozenset( [ 1 ] ) )"))                   # control
-    add("parstr_bitstruct_type", _D('''
+    add("ctl_parstr_bitstruct_type", _D('''
         def mkmsg( w ):
           @bitstruct
           class Msg:
@@ -556,7 +594,7 @@ def _collide(thorough):
         def build():
           return Top()
         ''')
-    add("id_wire_vs_child_port", _child() + _D('''
+    add("id_flat_wire_vs_child_port", _child() + _D('''
         class Top( Component ):
           def construct( s ):
             s.in_ = InPort( 8 )
@@ -569,7 +607,7 @@ def _collide(thorough):
               s.a__out @= s.in_
               s.out @= s.a.out + s.a__out
         ''') + ONE)
-    add("id_list_vs_scalar_child", _child() + _D('''
+    add("id_flat_list_vs_scalar_child", _child() + _D('''
         class Top( Component ):
           def construct( s ):
             s.in_ = InPort( 8 )
@@ -582,7 +620,7 @@ def _collide(thorough):
             s.b__0.in_ //= s.in_
             s.b__0.out //= s.o[2]
         ''') + ONE)
-    add("id_port_vs_ifc_port", _D('''
+    add("id_flat_port_vs_ifc_port", _D('''
         class Ifc( Interface ):
           def construct( s ):
             s.msg = InPort( 8 )
@@ -624,7 +662,7 @@ def _collide(thorough):
               x = s.in_[0:4]
               s.o2 @= x
         ''') + ONE)
-    add("id_struct_port_vs_flat_port", _D('''
+    add("id_flat_struct_port_vs_port", _D('''
         @bitstruct
         class P:
           f: Bits8
@@ -638,7 +676,7 @@ def _collide(thorough):
             def up():
               s.out @= s.p.f + s.p__f
         ''') + ONE)
-    add("id_array_port_vs_flat_port", _D('''
+    add("id_flat_array_port_vs_port", _D('''
         class Top( Component ):
           def construct( s ):
             s.p = [ InPort( 8 ) for _ in range( 2 ) ]
